@@ -3,6 +3,7 @@ package main
 // Calls: builtins, conversions, contracts (verified or assumed), function values, inlined literals.
 
 import (
+	"fmt"
 	"go/ast"
 	"go/token"
 	"go/types"
@@ -202,51 +203,57 @@ func (fv *FV) applyContract(st *State, call *ast.CallExpr, fc *FuncContract, sel
 	// The receiver is read AFTER the arguments have been evaluated when it is a location (m.repay(pop(m)): the callee
 	// sees the pointee as the argument evaluation left it; pointers are modelled as the value they point to).
 	evalRecv := func() {
-	if sel != nil && fv.info.Selections[sel] != nil && fc.RecvName != "" && fc.RecvName != "_" {
-		rsel := fv.info.Selections[sel]
-		var rv Term
-		var rp *Path
-		if fv.isPathExpr(sel.X) {
-			rp = fv.lvalue(st, sel.X)
-			rp = fv.extendSelection(rp, rsel, sel.Pos(), len(rsel.Index())-1)
-			rv = fv.readPath(st, rp, false)
-		} else {
-			rv = fv.evalExpr(st, sel.X)
-		}
-		// adapt receiver to the declared receiver type
-		if rt := fc.Obj.Type().(*types.Signature).Recv(); rt != nil {
-			want := fv.ss.Of(rt.Type())
-			if want != rv.Sort {
-				switch {
-				case want.Kind == KPtr && want.Elem == rv.Sort:
-					rv = ptrMk(want, rv) // auto address-of; write back below
-				case rv.Sort.Kind == KPtr && rv.Sort.Elem == want:
-					fv.assert(st, "nil-deref", tNot(tEq(rv, ptrNil(rv.Sort))), sel.Pos(), "method call through nil pointer")
-					rv = ptrDrf(rv)
-					rp = nil
-				case want == SBig && rv.Sort == SInt:
-					rv = bigMk(rv)
-				case rv.Sort == SBig && want == SInt:
-					fv.assert(st, "nil-deref", tNot(tEq(rv, T("bnil", SBig))), sel.Pos(), "method call through nil pointer")
-					rv = bigVal(rv)
-					rp = nil
-				case want.Kind == KPtr && rv.Sort.Kind == KOpaque && fv.refPtr(rv.Sort) == want:
-					// receiver reached through a recursive reference: box its current pointee (updates are not written back)
-					rv = tIte(tEq(rv, Term{fv.ss.Zero(rv.Sort), rv.Sort}), ptrNil(want), ptrMk(want, Term{sx("deref_"+rv.Sort.Name, rv.S), want.Elem}))
-					rp = nil
-					fv.note("method call through a recursive pointer field: modifications of the pointee are not written back (no heap model)")
-				case want.Kind == KOpaque || want.Kind == KSum || want.Kind == KErr:
-					rv = fv.box(st, rv, fv.info.TypeOf(sel.X), want, sel.Pos())
-				default:
-					fv.abort(sel.Pos(), "receiver sort %s does not match %s", rv.Sort.Name, want.Name)
+		if sel != nil && fv.info.Selections[sel] != nil && fc.RecvName != "" && fc.RecvName != "_" {
+			rsel := fv.info.Selections[sel]
+			var rv Term
+			var rp *Path
+			if fv.isPathExpr(sel.X) {
+				rp = fv.lvalue(st, sel.X)
+				rp = fv.extendSelection(rp, rsel, sel.Pos(), len(rsel.Index())-1)
+				rv = fv.readPath(st, rp, false)
+			} else {
+				rv = fv.evalExpr(st, sel.X)
+			}
+			// adapt receiver to the declared receiver type
+			if rt := fc.Obj.Type().(*types.Signature).Recv(); rt != nil {
+				want := fv.ss.Of(rt.Type())
+				// method of an instantiated generic type: the receiver has the instantiated type (ResourceQuery[any], not ResourceQuery[Opts])
+				if inst, ok := rsel.Obj().(*types.Func); ok {
+					if isig, ok := inst.Type().(*types.Signature); ok && isig.Recv() != nil {
+						want = fv.ss.Of(isig.Recv().Type())
+					}
+				}
+				if want != rv.Sort {
+					switch {
+					case want.Kind == KPtr && want.Elem == rv.Sort:
+						rv = ptrMk(want, rv) // auto address-of; write back below
+					case rv.Sort.Kind == KPtr && rv.Sort.Elem == want:
+						fv.assert(st, "nil-deref", tNot(tEq(rv, ptrNil(rv.Sort))), sel.Pos(), "method call through nil pointer")
+						rv = ptrDrf(rv)
+						rp = nil
+					case want == SBig && rv.Sort == SInt:
+						rv = bigMk(rv)
+					case rv.Sort == SBig && want == SInt:
+						fv.assert(st, "nil-deref", tNot(tEq(rv, T("bnil", SBig))), sel.Pos(), "method call through nil pointer")
+						rv = bigVal(rv)
+						rp = nil
+					case want.Kind == KPtr && rv.Sort.Kind == KOpaque && fv.refPtr(rv.Sort) == want:
+						// receiver reached through a recursive reference: box its current pointee (updates are not written back)
+						rv = tIte(tEq(rv, Term{fv.ss.Zero(rv.Sort), rv.Sort}), ptrNil(want), ptrMk(want, Term{sx("deref_"+rv.Sort.Name, rv.S), want.Elem}))
+						rp = nil
+						fv.note("method call through a recursive pointer field: modifications of the pointee are not written back (no heap model)")
+					case want.Kind == KOpaque || want.Kind == KSum || want.Kind == KErr:
+						rv = fv.box(st, rv, fv.info.TypeOf(sel.X), want, sel.Pos())
+					default:
+						fv.abort(sel.Pos(), "receiver sort %s does not match %s", rv.Sort.Name, want.Name)
+					}
 				}
 			}
+			pre[fc.RecvName] = fv.bind(st, rv, "recv")
+			if rp != nil {
+				paths[fc.RecvName] = rp
+			}
 		}
-		pre[fc.RecvName] = fv.bind(st, rv, "recv")
-		if rp != nil {
-			paths[fc.RecvName] = rp
-		}
-	}
 	}
 	recvIsPath := sel != nil && fv.info.Selections[sel] != nil && fv.isPathExpr(sel.X)
 	if !recvIsPath {
@@ -290,6 +297,33 @@ func (fv *FV) applyContract(st *State, call *ast.CallExpr, fc *FuncContract, sel
 	}
 	// type arguments of a generic callee
 	var typeArgs map[string]types.Type
+	// type arguments of the receiver of a method of a generic type
+	if sel != nil && fv.info.Selections[sel] != nil {
+		if osig, ok := fc.Obj.Type().(*types.Signature); ok && osig.Recv() != nil {
+			ot := osig.Recv().Type()
+			if p, ok := ot.(*types.Pointer); ok {
+				ot = p.Elem()
+			}
+			if on, ok := ot.(*types.Named); ok && on.TypeArgs() != nil && on.TypeArgs().Len() > 0 {
+				if inst, ok := fv.info.Selections[sel].Obj().(*types.Func); ok {
+					if isig, ok := inst.Type().(*types.Signature); ok && isig.Recv() != nil {
+						it := isig.Recv().Type()
+						if p, ok := it.(*types.Pointer); ok {
+							it = p.Elem()
+						}
+						if in, ok := it.(*types.Named); ok && in.TypeArgs() != nil && in.TypeArgs().Len() == on.TypeArgs().Len() {
+							typeArgs = map[string]types.Type{}
+							for i := 0; i < on.TypeArgs().Len(); i++ {
+								if tp, ok := on.TypeArgs().At(i).(*types.TypeParam); ok {
+									typeArgs[tp.Obj().Name()] = in.TypeArgs().At(i)
+								}
+							}
+						}
+					}
+				}
+			}
+		}
+	}
 	if osig, ok := fc.Obj.Type().(*types.Signature); ok && osig.TypeParams() != nil && osig.TypeParams().Len() > 0 {
 		var id *ast.Ident
 		switch f := stripParens(call.Fun).(type) {
@@ -343,6 +377,11 @@ func (fv *FV) applyContract(st *State, call *ast.CallExpr, fc *FuncContract, sel
 			}
 			if strings.Contains(name, ".") {
 				return fv.lookupGlobal(fc.Pkg, name)
+			}
+			if fc.Pkg != nil && fc.Pkg.Types != nil {
+				if v, ok := fc.Pkg.Types.Scope().Lookup(name).(*types.Var); ok {
+					return fv.globalVar(v), true
+				}
 			}
 			return Term{}, false
 		}
@@ -588,8 +627,20 @@ func (fv *FV) evalConversion(st *State, call *ast.CallExpr, to types.Type) Term 
 		return fv.box(st, v, from, tso, call.Pos())
 	}
 	if tso.Kind == KSlice && v.Sort == SStr || tso == SStr && v.Sort.Kind == KSlice {
-		fv.note("string/bytes conversion abstracted")
-		return fv.fresh("conv", tso)
+		// []byte(s) / string(b): abstracted to an uninterpreted, deterministic pair with string([]byte(s)) == s
+		bs := tso
+		if tso == SStr {
+			bs = v.Sort
+		}
+		fn := "bytes2str_" + bs.Name
+		fv.ss.ensureDecl(fn, fmt.Sprintf("(declare-fun %s (%s) Str)", fn, bs.Name))
+		fv.note("string/bytes conversion abstracted (uninterpreted, string([]byte(s)) == s)")
+		if tso == SStr {
+			return T(sx(fn, v.S), SStr)
+		}
+		r := fv.fresh("conv", tso)
+		st.assume(tEq(T(sx(fn, r.S), SStr), v))
+		return r
 	}
 	fv.abort(call.Pos(), "unsupported conversion from %s to %s", from, to)
 	return Term{}
@@ -606,7 +657,6 @@ func sizeOf(b *types.Basic) int {
 	}
 	return 8
 }
-
 
 // constDispatch: a call of an interface method on a closed-sum interface value where every implementing type declares
 // the method as `return <constant>` (e.g. Value.GetType) is the case distinction over the dynamic type. The bodies are
